@@ -51,7 +51,7 @@ func init() {
 		// between several kid-less keys must stay visible to FindMatchingKey)
 		{ID: "E1.keyset.remote.decoder-keeps-every-key", Fn: "client/rp.(*jsonWebKeySet).UnmarshalJSON", P: []string{"k", "data"}, Kind: "backedge", Pat: "backedge($raw.Keys)",
 			Why: "an iteration ends either with a key that could not be parsed or with that key appended to the set",
-			Req: []string{"fail($w.UnmarshalJSON(_)) || called(append($k.Keys, *$w))"}},
+			Req: []string{"fail($w.UnmarshalJSON(_)) || called(append($k.Keys, *$w)) || called(append($k.Keys, $w))"}},
 		// key sets: the candidates handed to key selection are the last successfully downloaded set (cached path) resp. the
 		// set the refresh returned (remote path) - never another container (a withdrawn key must stop being trusted)
 		{ID: "E8.keyset.remote.cached-candidates", Fn: "client/rp.(*remoteKeySet).verifySignatureCached", P: []string{"r", "jws", "keyID", "alg"}, Kind: "call", Pat: "oidc.FindMatchingKey(_, _, _, $keys)", Max: 1,
